@@ -259,10 +259,10 @@ def gen_cases(run):
                 if mine():
                     yield {"scn": scn, "kills": kills, "workers": 2}
         # syscall-level deaths (mid-file writes) through strace fault injection
-        for scn in [s for s in scns if s["rel"] is None and s["parent"]]:
-            for when in range(1, 41, 1):
+        for scn in [s for s in scns if s["parent"]]:
+            for j in range(30):
                 if mine():
-                    yield {"scn": scn, "strace_when": when, "kills": ["strace"]}
+                    yield {"scn": scn, "strace_frac": round((j + rng.random()) / 30, 4), "kills": ["strace"]}
     run.exhaustive = all_single
 
 
@@ -297,7 +297,7 @@ def _check_result_truth(run, scn, res, pre_shape, what):
 
 def run_case(run, spec):
     scn = spec["scn"]
-    if "strace_when" in spec:
+    if "strace_frac" in spec:
         return _run_strace(run, spec)
     workers = spec.get("workers", 0)
     root = Path(tempfile.mkdtemp(prefix="kdv_c20_"))
@@ -407,45 +407,60 @@ def run_case(run, spec):
 
 
 # ------------------------------------------------------------------------------------------------ strace (syscall level)
-_STRACE_SNIPPET = r"""
-import sys
-from pathlib import Path
-fn, g, l = sys.argv[1], Path(sys.argv[2]), Path(sys.argv[3])
-if fn == "folder":
-    from kappadata.copying.folder import copy_folder_from_global_to_local as f
-else:
-    from kappadata.copying.image_folder import copy_imagefolder_from_global_to_local as f
-open(sys.argv[4], "w").close()
-r = f(global_path=g, local_path=l)
-print("RESULT", r)
-"""
+_SYSCALLS = "write,sendfile,copy_file_range,mkdir,mkdirat,rename,renameat,renameat2,unlink,unlinkat,rmdir"
+
+
+def _strace_cmd(scn, g, l, rel, extra):
+    return ["strace", "-f", "-qq"] + extra + [sys.executable, str(Path(__file__).with_name("h20_server.py")), str(core.REPO), "--oneshot",
+                                               scn["fn"], str(g), str(l), rel or "-"]
 
 
 def _run_strace(run, spec):
+    """syscall-level death: the process is SIGKILLed at the k-th mutating syscall (write / sendfile / copy_file_range / mkdir /
+    rename / unlink ...) of the copy, i.e. also in the middle of a file; then an uninterrupted call must recover"""
     scn = spec["scn"]
     root = Path(tempfile.mkdtemp(prefix="kdv_c20s_"))
     try:
         expected = _prepare(root, scn)
         g, l, rel, dst = _paths(root, scn)
-        ready = root / "ready.flag"
-        env = dict(os.environ, PYTHONPATH=os.pathsep.join([str(core.REPO)] + sys.path[1:]))
-        # only syscalls that touch paths below the sandbox's local side are traced (and therefore counted for injection)
-        cmd = ["strace", "-f", "-o", "/dev/null", "-P", str(dst), "-P", str(dst / START), "-e", "trace=write,openat,mkdir,unlink,unlinkat,rename,renameat,renameat2,close,sendfile,copy_file_range",
-               "-e", f"inject=write,openat,mkdir,unlinkat,unlink,sendfile,copy_file_range,close:signal=SIGKILL:when={spec['strace_when']}",
-               sys.executable, "-c", _STRACE_SNIPPET, scn["fn"], str(g), str(l), str(ready)]
+        # counting run (no injection) on a throw-away destination: how many such syscalls does a full copy perform?
+        trace = root / "trace.txt"
         try:
-            p = subprocess.run(cmd, env=env, capture_output=True, text=True, timeout=300)
+            p = subprocess.run(_strace_cmd(scn, g, root / "count_run" / "ds" if rel is None else root / "count_run", rel, ["-o", str(trace), "-e", f"trace={_SYSCALLS}"]),
+                               capture_output=True, text=True, timeout=300)
+        except subprocess.TimeoutExpired:
+            raise core.Inconclusive("strace counting run hit the wall-clock watchdog")
+        if "RESULT" not in p.stdout:
+            raise core.Inconclusive(f"strace counting run failed: {p.stderr[-300:]}")
+        import re
+        seq = [m.group(1) for m in (re.match(r"^\d+\s+(\w+)\(", ln) for ln in open(trace)) if m]
+        n_sys = len(seq)
+        if n_sys < 3:
+            raise core.Inconclusive(f"strace counted only {n_sys} syscalls")
+        when = max(1, min(n_sys, int(round(spec["strace_frac"] * n_sys))))
+        # strace counts `when` per syscall name: kill at the k-th invocation of the syscall that is the `when`-th overall
+        name = seq[when - 1]
+        k = seq[:when].count(name)
+        try:
+            p = subprocess.run(_strace_cmd(scn, g, l, rel, ["-o", "/dev/null", "-e", f"trace={name}", "-e", f"inject={name}:signal=SIGKILL:when={k}"]),
+                               capture_output=True, text=True, timeout=300)
         except subprocess.TimeoutExpired:
             raise core.Inconclusive("strace run hit the wall-clock watchdog")
+        run.cover("strace-kill-at", name)
         run.count("strace_runs")
-        killed = p.returncode != 0 and "RESULT" not in p.stdout
-        if not ready.exists():
-            run.count("strace_died_before_call")
-        if killed:
+        if "RESULT" in p.stdout:
+            run.count("strace_survived")
+        else:
             run.count("strace_deaths")
         snap = _snapshot(dst)
         shape = _state_shape(snap, expected)
         run.cover("strace-post-state", shape)
+        notes = run.notes.setdefault("distinct_post_crash_states_syscall_level", [])
+        if shape not in notes:
+            notes.append(shape)
+        if snap is not None and START in snap and END in snap and {a: b for a, b in snap.items() if a not in (START, END)} != expected:
+            run.violation("state:looks-complete-but-is-not", f"{_desc(scn)} after a syscall-level death at mutating syscall {when}/{n_sys}: both markers exist but the tree is incomplete")
+            return
         res = _call_in_child(root, scn)
         if res["status"] != "returned":
             run.count("calls_raised")
@@ -457,6 +472,11 @@ def _run_strace(run, spec):
             key = "returns-on-incomplete-copy"
             if shape.startswith("dir") and "+start" not in shape:
                 key += ":unmarked-directory-left-by-interrupted-attempt"
-            run.violation(key, f"{_desc(scn)} after a syscall-level death (strace when={spec['strace_when']}, state '{shape}'): returned normally ({res['result']}) but the destination is not a complete copy")
+            run.violation(key, f"{_desc(scn)} after a syscall-level death (mutating syscall {when}/{n_sys}, state '{shape}'): returned normally ({res['result']}) but the destination is not a complete copy")
+            return
+        if not _check_result_truth(run, scn, res, shape, f"{_desc(scn)} after a syscall-level death ({when}/{n_sys})"):
+            return
+        if len(run.samples) < 8:
+            run.sample({"scenario": _desc(scn), "syscall_level_death_at": f"{when}/{n_sys}", "state_after_death": shape, "recovery_result": res["result"]})
     finally:
         shutil.rmtree(root, ignore_errors=True)
